@@ -128,6 +128,20 @@ def _run_src(binary, src, stack_kib, cpu_s):
     return classify(rc, out, err), round(time.time() - t0, 3)
 
 
+class phase:
+    """Wall time of a phase of the check, for the evidence (coverage.phase_s)."""
+
+    def __init__(self, ck, name):
+        self.ck, self.name = ck, name
+
+    def __enter__(self):
+        self.t0 = time.time()
+
+    def __exit__(self, *a):
+        d = self.ck.extra_cov.setdefault("phase_s", {})
+        d[self.name] = round(d.get(self.name, 0) + time.time() - self.t0, 1)
+
+
 def pmap(fn, jobs):
     with ThreadPoolExecutor(WORKERS) as ex:
         return list(ex.map(fn, jobs))
@@ -149,14 +163,16 @@ def run(ck: Check):
         "in the code enforces that bound (open findings D-08-runtime-data_*)",
         "the 8 MiB stack is applied with RLIMIT_STACK to the child process (= `ulimit -s 8192`), main thread, as the CLI runs",
     ]
-    ck.build_harness()
-    ck.gen_tables()
-    ck.lean_obligations(["NaijaVerif.Props.C08"])
-    ck.build_driver(["Depth"])
+    with phase(ck, "build+lean"):
+        ck.build_harness()
+        ck.gen_tables()
+        ck.lean_obligations(["NaijaVerif.Props.C08"])
+        ck.build_driver(["Depth"])
     # ---- structural correspondence (scan of the source vs the Lean graph)
     nwalks = 300 if ck.tier == "quick" else 20000
-    reqs = corpus_requests() + ck.gen("depth", ["--n", nwalks])
-    res = ck.corr("depth", reqs)
+    with phase(ck, "correspondence"):
+        reqs = corpus_requests() + ck.gen("depth", ["--n", nwalks])
+        res = ck.corr("depth", reqs)
     for r, a in zip(reqs, res["impl_lines"]):
         if r.startswith("path ") and "guarded=0" not in a and a.startswith("ok"):
             ck.nontrivial_case(r)
@@ -165,23 +181,31 @@ def run(ck: Check):
             ck.count("walks")
     # ---- behaviour on the real binary
     profiles = ["debug"] if ck.tier == "quick" else ["debug", "release"]
-    bins = {p: ck.build_cli(p) for p in profiles}
+    with phase(ck, "build_cli"):
+        bins = {p: ck.build_cli(p) for p in profiles}
     measured, nest_out, data_out, crashes = {}, {}, {}, []
     for prof in profiles:
-        measured[prof] = runtime_shapes(ck, bins[prof], prof, crashes)
-        nest_out[prof] = nest_shapes(ck, bins[prof], prof, crashes)
-        data_out[prof] = data_shapes(ck, bins[prof], prof, crashes)
+        with phase(ck, "runtime_shapes"):
+            measured[prof] = runtime_shapes(ck, bins[prof], prof, crashes)
+        with phase(ck, "nest_shapes"):
+            nest_out[prof] = nest_shapes(ck, bins[prof], prof, crashes)
+        with phase(ck, "data_shapes"):
+            data_out[prof] = data_shapes(ck, bins[prof], prof, crashes)
     ck.extra_cov["measured_frame_costs"] = measured
     ck.extra_cov["nest_outcomes"] = nest_out
     ck.extra_cov["data_outcomes"] = data_out
     arithmetic(ck, measured)
     if ck.tier == "thorough":
-        ck.leanchecker(["NaijaVerif.Props.C08"])
-        ck.extra_cov["crash_thresholds"] = thresholds(ck, bins)
-        ck.extra_cov["leaf_costs_kib"] = {p: leaf_costs(ck, bins[p], p) for p in profiles}
+        with phase(ck, "leanchecker"):
+            ck.leanchecker(["NaijaVerif.Props.C08"])
+        with phase(ck, "thresholds"):
+            ck.extra_cov["crash_thresholds"] = thresholds(ck, bins)
+        with phase(ck, "leaf_costs"):
+            ck.extra_cov["leaf_costs_kib"] = {p: leaf_costs(ck, bins[p], p) for p in profiles}
     # ---- every listed open finding is re-run from its witness (quick tier too)
     replays = {}
-    ck.replay_known_findings(lambda k: reproduces(ck, bins, k, replays))
+    with phase(ck, "finding_replays"):
+        ck.replay_known_findings(lambda k: reproduces(ck, bins, k, replays))
     ck.extra_cov["finding_replays"] = replays
     # ---- report
     seen = set()
@@ -456,18 +480,23 @@ def data_shapes(ck, binary, prof, crashes):
 
 # ------------------------------------------------------------------------------------------------
 def thresholds(ck, bins):
-    """Thorough tier: smallest crashing depth per shape, stage cut and profile (bisection to 4 %)."""
+    """Thorough tier: smallest crashing depth per shape, stage cut and profile (bisection to 4 %).
+    Kept inside the time budget: the resolver is quadratic in the depth of an expression (infer_expr_type
+    is re-run at every level), so a *passing* probe near a release threshold takes 10 s and more --
+    refinement stops once a passing probe needed more than 15 s (the bracket is then wider); shapes the
+    parser handles iteratively get one parser-only probe at the deep depth instead of a search; the full
+    pipeline is searched only when it crashes where the resolver-cut run still passes (a run-time crash)."""
+    recursive_in_parser = {n for n, sh_ in S.NEST.items()
+                           if STAGE_CONSTRUCT.get((n, "parser"), sh_["construct"]) in PARSER_CONSTRUCTS}
+
     def probe(binary, name, cut, d):
         return run_src(binary, S.stage_cut(S.NEST[name]["src"](d), cut), cpu_s=120)
 
     def search(a):
-        # the resolver is quadratic in the depth of an expression chain (infer_expr_type is re-run at every
-        # level), so a *passing* probe near the threshold can take a minute: refinement stops once a
-        # passing probe needed more than 15 s (the bracket is then wider than 4 %)
         name, prof, cut = a
         binary = bins[prof]
         lo, lo_out, hi, d, slow = 0, None, None, 250, False
-        while d <= 1024000:
+        while d <= 262144 and not slow:
             o, t = probe(binary, name, cut, d)
             if o == CRASH:
                 hi = d
@@ -475,6 +504,7 @@ def thresholds(ck, bins):
             if o == "timeout":
                 break
             lo, lo_out = d, o
+            slow = t > 15
             d *= 2
         while hi is not None and hi / max(lo, 1) > 1.04 and not slow:
             mid = (lo + hi) // 2
@@ -486,17 +516,38 @@ def thresholds(ck, bins):
             else:
                 lo, lo_out = mid, o
                 slow = t > 15
-        return {"shape": name, "profile": prof, "cut": cut, "max_pass": lo, "pass_outcome": lo_out, "min_crash": hi}
+        row = {"shape": name, "profile": prof, "cut": cut, "max_pass": lo, "pass_outcome": lo_out, "min_crash": hi}
+        if slow:
+            row["stopped_by"] = "slow passing probe (> 15 s)"
+        return row
 
-    jobs = [(n, p, c) for n in S.NEST for p in bins for c in ("parser", "resolver", "none")]
+    jobs = [(n, p, c) for n in S.NEST for p in bins for c in ("parser", "resolver")
+            if c == "resolver" or n in recursive_in_parser]
     rows = pmap(search, jobs)
-    ck.evaluations += len(rows) * 12
+    for n in S.NEST:
+        if n not in recursive_in_parser:
+            for p in bins:
+                o, _t = probe(bins[p], n, "parser", DEEP[p])
+                rows.append({"shape": n, "profile": p, "cut": "parser", "max_pass": DEEP[p] if o != CRASH else 0,
+                             "pass_outcome": o, "min_crash": DEEP[p] if o == CRASH else None, "single_probe": True})
+    # full pipeline: a crash at a depth the resolver-cut run survives is a run-time crash
+    full_jobs = []
+    for r in [r for r in rows if r["cut"] == "resolver"]:
+        d = r["max_pass"]
+        o = probe(bins[r["profile"]], r["shape"], "none", d)[0] if d else None
+        if o == CRASH:
+            full_jobs.append((r["shape"], r["profile"], "none"))
+        else:
+            rows.append({"shape": r["shape"], "profile": r["profile"], "cut": "none", "max_pass": d, "pass_outcome": o,
+                         "min_crash": r["min_crash"], "same_as": "resolver"})
+    rows += pmap(search, full_jobs)
+    ck.evaluations += len(rows) * 10
 
     def dsearch(a):
         name, prof = a
         lo, hi, d = 0, None, 1000
         while d <= 256000:
-            o = run_src(bins[prof], S.DATA[name]["src"](d, S.CHUNK[prof]), cpu_s=300)[0]
+            o = run_src(bins[prof], S.DATA[name]["src"](d, S.CHUNK[prof]), cpu_s=120)[0]
             if o == CRASH:
                 hi = d
                 break
@@ -504,9 +555,9 @@ def thresholds(ck, bins):
                 return {"shape": name, "profile": prof, "max_pass": lo, "min_crash": None, "stopped_by": o, "at": d}
             lo = d
             d *= 2
-        while hi is not None and hi / max(lo, 1) > 1.05:
+        while hi is not None and hi / max(lo, 1) > 1.1:
             mid = (lo + hi) // 2
-            o = run_src(bins[prof], S.DATA[name]["src"](mid, S.CHUNK[prof]), cpu_s=300)[0]
+            o = run_src(bins[prof], S.DATA[name]["src"](mid, S.CHUNK[prof]), cpu_s=120)[0]
             if o == CRASH:
                 hi = mid
             elif o in ("timeout", "oom"):
@@ -515,7 +566,7 @@ def thresholds(ck, bins):
                 lo = mid
         return {"shape": name, "profile": prof, "max_pass": lo, "min_crash": hi}
 
-    drows = pmap(dsearch, [(n, p) for n in S.DATA for p in bins])
+    drows = pmap(dsearch, [(n, p) for n in ("wrap", "wrap_chunk", "wrap_chunk_shout", "wrap_chunk_join") for p in bins])
     return {"nest": rows, "data": drows}
 
 
